@@ -324,3 +324,70 @@ func zzH_C04_key() {
 		}
 	}
 }
+
+func init() {
+	zzHarnesses["zzH_C04_jump"] = zzH_C04_jump
+}
+
+// H4.jump: a long result list (well past anything a screen shows) probed far ahead of what has
+// been merged so far - last entry first, or one screenful and then a jump to the end: the entry at
+// every probed position is the one the global order puts there, whatever was read before. Ranks are
+// concrete with many ties (two score levels), the probe pattern and --tac are the variables.
+func zzH_C04_jump() {
+	tac := zzv.CfgBool("tac")
+	total := zzv.CfgInt("total")
+	nl := 3
+	lists := make([][]Result, nl)
+	all := make([]Result, 0, total)
+	for i := 0; i < total; i++ {
+		it := &Item{}
+		it.text.Index = int32(i)
+		r := Result{item: it}
+		r.points[3] = uint16(1 + i%2) // two score levels: ties everywhere
+		all = append(all, r)
+	}
+	// partitions: contiguous thirds, each sorted with the matcher's own comparator
+	for l := 0; l < nl; l++ {
+		part := append([]Result{}, all[l*total/nl:(l+1)*total/nl]...)
+		for i := 1; i < len(part); i++ {
+			for j := i; j > 0 && !compareRanks(part[j-1], part[j], tac); j-- {
+				part[j-1], part[j] = part[j], part[j-1]
+			}
+		}
+		lists[l] = part
+	}
+	ref := []Result{}
+	for _, lvl := range []uint16{1, 2} {
+		if tac {
+			for i := total - 1; i >= 0; i-- {
+				if all[i].points[3] == lvl {
+					ref = append(ref, all[i])
+				}
+			}
+		} else {
+			for i := 0; i < total; i++ {
+				if all[i].points[3] == lvl {
+					ref = append(ref, all[i])
+				}
+			}
+		}
+	}
+	mg := NewMerger(nil, lists, true, tac, revision{}, 0)
+	zzv.Reach("called")
+	var probes []int
+	switch zzv.Choose(0, 2) {
+	case 0:
+		probes = []int{total - 1, 0, total / 2}
+	case 1:
+		probes = []int{0, 1, 2, 40, total - 1, 41, total - 2}
+	default:
+		probes = []int{total / 2, total/2 - 1, total - 1, 0}
+	}
+	ok := true
+	for _, p := range probes {
+		if !zzSameRank(mg.Get(p), ref[p]) {
+			ok = false
+		}
+	}
+	zzv.Assert("far-probe-equals-global-order", ok)
+}
